@@ -382,6 +382,47 @@ def rule_access_sets(repo, rep):
     # get_address_ranges covers the 4 tiles
     f = util.func("get_address_ranges")
     rep.check(norm(f.body[-1]) == "return [t0, t1, t2, t3]", "C04-b", f"{UFILE}:get_address_ranges", "returns the ranges of all four tiles", norm(f.body[-1]))
+    # ... and builds each tile's range exactly when the hardware (and get_address) uses that tile: tile 1 iff width > width_0,
+    # tile 2 iff height > height_0, tile 3 iff width > width_0 and height > height_1 (tile 3 starts at row height_1 of the right column)
+    from ..exprnorm import comparison as _cmp, conjuncts as _cj
+
+    def _guard(tname):
+        for i_ in ast.walk(f):
+            if isinstance(i_, ast.If) and any(isinstance(s_, ast.Assign) and norm(s_.targets[0]) == tname and not (isinstance(s_.value, ast.Constant) and s_.value.value is None) for s_ in i_.body):
+                return i_.test
+        return None
+
+    def _key(k):
+        return str((sorted(k[0].items()), sorted(k[1])))
+
+    def _forms(t):
+        if t is None:
+            return None
+        out = set()
+        for c_ in _cj(t):
+            txt = str(norm(c_))
+            # `t1 is not None` stands for t1's own condition
+            mm = re.fullmatch(r"(t[12]) is not None", txt)
+            if mm:
+                sub = _forms(_guard(mm.group(1)))
+                if sub is None:
+                    return None
+                out |= sub
+            else:
+                k = _cmp(c_)
+                if k is None:
+                    return None
+                out.add(_key(k))
+        return out
+
+    want3 = {_key(_cmp(ast.parse("width > width_0", mode="eval").body)), _key(_cmp(ast.parse("height > height_1", mode="eval").body))}
+    got3 = _forms(_guard("t3"))
+    rep.check(got3 == want3, "C04-b", f"{UFILE}:get_address_ranges", "tile 3's range is built iff width > width_0 and height > height_1 (the rows get_address sends to tile 3)",
+              f"built under {sorted(got3) if got3 else 'an unrecognised condition'}: a feature map with height_1 < height <= height_0 and width > width_0 uses tile 3 but its memory is missing from the access set "
+              "(no wait between a DMA on that memory and the kernel; demonstrated: 8x8x16 IFM, NpuTileBox(8, 4, 4, ...), DMA to BASE3 -> DMA_START, POOL without DMA_WAIT)")
+    for tn, w_ in (("t1", "width > width_0"), ("t2", "height > height_0")):
+        g_ = _forms(_guard(tn))
+        rep.check(g_ == {_key(_cmp(ast.parse(w_, mode="eval").body))}, "C04-b", f"{UFILE}:get_address_ranges", f"tile {tn[1]}'s range is built iff {w_}", str(sorted(g_) if g_ else g_))
     rep.floor("C04-b", 20)
 
 
